@@ -112,8 +112,6 @@ def o_load(inp):
         # exact placement: every loaded note event must match an expected event at an admissible tick
         exp_note_events = []
         for i in g:
-            if groups.index(next(gg for gg in groups if i in gg)) != gi:
-                continue
             for (ty, ch, cum, note, vel, num, den, key) in per_track[i]:
                 if ty in (6, 7):
                     exp_note_events.append((ty, ch, note, expected_tick(cum, ppq)))
@@ -126,8 +124,6 @@ def o_load(inp):
         if not ambiguous:
             per = []
             for i in g:
-                if groups.index(next(gg for gg in groups if i in gg)) != gi:
-                    continue
                 timed = [(min(expected_tick(cum, ppq)), (ty, ch, None, note, vel, None, None, None, None, None))
                          for (ty, ch, cum, note, vel, num, den, key) in per_track[i] if ty in (6, 7)]
                 # per-track normalise removes unclosed notes: keep closed intervals only
@@ -182,6 +178,21 @@ def o_load(inp):
     return fails
 
 
+def shared_track(inp):
+    """D20: some track index is listed in more than one group"""
+    seen = set()
+    for g in inp["groups"]:
+        for i in set(g):
+            if i in seen:
+                return True
+            seen.add(i)
+    return any(len(set(g)) != len(g) for g in inp["groups"])
+
+
+def kf_d20(f):
+    return f["clause"] == "routing" and "expected union" in f["detail"] and shared_track(f["input"])
+
+
 def kf_d17(f):
     return f["clause"] == "routing" and "expected union" in f["detail"] and zero_length_note(f["input"])
 
@@ -189,6 +200,7 @@ def kf_d17(f):
 def setup(ctx):
     global SCRATCH, KEYNAMES
     ctx.kf_predicates["D17"] = kf_d17
+    ctx.kf_predicates["D20"] = kf_d20
     SCRATCH = ctx.scratch
     from scoda.misc.music_theory import MusicMapping
     KEYNAMES = list(MusicMapping.KeyKeyMapping.keys()) + ["A#m", "Abm"]
@@ -231,7 +243,7 @@ def gen_track(rng, ppq, n_events, wf=True):
         elif k < 0.9:
             evs.append((2, None, delta, None, None, None, None, None, None, rng.choice(KEYNAMES)))
         else:
-            evs.append((1, None, delta, None, None, None, None, None, None, None))
+            evs.append((1, None, delta, None, None, rng.randrange(9), None, None, None, None))   # uninterpreted event of some kind
     for (c2, note) in sorted(open_):
         if not wf and rng.random() < 0.5:
             continue          # ill-formed track: the note is never closed (per-track normalise removes it)
@@ -239,6 +251,9 @@ def gen_track(rng, ppq, n_events, wf=True):
     return evs
 
 
+D20_EXAMPLE = {"ppq": 24, "target": 0, "groups": [[0], [0, 1]], "meta": [0], "tracks": [
+    [(7, 0, 0, 60, 64, None, None, None, None, None), (6, 0, 24, 60, 0, None, None, None, None, None)],
+    [(7, 0, 48, 62, 64, None, None, None, None, None), (6, 0, 24, 62, 0, None, None, None, None, None)]]}
 D17_EXAMPLE = {"ppq": 24, "target": 0, "groups": [[0]], "meta": [0], "tracks": [[
     (7, 0, 1, 63, 64, None, None, None, None, None), (6, 0, 0, 63, 0, None, None, None, None, None),
     (7, 0, 7, 63, 64, None, None, None, None, None), (6, 0, 24, 63, 0, None, None, None, None, None)]]}
@@ -247,6 +262,7 @@ D17_EXAMPLE = {"ppq": 24, "target": 0, "groups": [[0]], "meta": [0], "tracks": [
 def generate(ctx):
     rng = ctx.rng
     ctx.check("load", D17_EXAMPLE)
+    ctx.check("load", D20_EXAMPLE)
     for i in range(ctx.n(120, 2500)):
         ppq = rng.choice([1, 7, 24, 48, 96, 100, 480, 960, 997, 32767])
         nt = rng.randint(1, 4)
@@ -268,6 +284,11 @@ def generate(ctx):
             while used:
                 kk = rng.randint(1, len(used))
                 groups.append(sorted(used[:kk])); used = used[kk:]
+        if nt > 1 and rng.random() < 0.08:
+            gi_ = rng.randrange(len(groups))
+            extra = rng.randrange(nt)
+            if extra not in groups[gi_]:
+                groups[gi_] = sorted(groups[gi_] + [extra])
         meta = [j for j in range(nt) if rng.random() < 0.7] or [0]
         target = rng.choice([0, 0, len(groups) - 1, rng.randint(-1, len(groups))])
         ctx.case((ppq, tracks, groups, meta, target), ppq != 24 or nt > 1)
@@ -287,6 +308,8 @@ def generate(ctx):
                     tie = True
         if zero_length_note(inp):
             ctx.count("zero-length-after-rounding(D17 class)")
+        if shared_track(inp):
+            ctx.count("track-in-two-groups(D20 class)")
         if tie:
             ctx.count("tie-skipped-correspondence")
         else:
